@@ -373,3 +373,46 @@ def _warn_label(msg, e):
     import re
     words = re.findall(r'[A-Za-z_.]+', txt)
     return '-'.join(words[:4]).lower() or 'warning@%d' % e.line
+
+
+@rule('H6', floor=1, title="check() never treats SQLite's own files (database, -wal, -shm, -journal) as unknown files")
+def h6(ctx):
+    """The unknown-file scan walks the cache directory, which also holds cache.db and its companions.  The exemption
+    must cover every name that starts with DBNAME: a rollback journal exists whenever the journal mode is not WAL,
+    and removing a hot journal corrupts the database."""
+    f = ctx.method('Cache', 'check')
+    try:
+        dbname = ctx.fold(ctx.prog.const_expr('core', 'DBNAME')[0], 'core')
+    except Exception:
+        raise AnalysisError('H6: DBNAME is not a constant')
+    need = {dbname + sfx for sfx in ('', '-wal', '-shm', '-journal')}
+    verdicts = []
+    for p in ctx.paths(f, 'default')[:800]:
+        tr = p.trace
+        for w in [e for e in tr if e.kind == 'EXT' and e.d['name'] in ('os.remove', 'os.unlink')]:
+            # the tests that guard this removal inside its loop iteration
+            start = max([x.seq for x in tr[:w.seq] if x.kind == 'FOR'] or [0])
+            for t in [x for x in tr[start:w.seq] if x.kind == 'TEST']:
+                v = t.d['val']
+                neg = False
+                while v.k == 'not':
+                    v, neg = v.a[0], not neg
+                if v.k == 'cmp' and v.a[0] in (('In',), ('NotIn',)):
+                    l, r = v.a[1]
+                    if l.is_const and l.val == dbname:
+                        verdicts.append(True)            # substring test on the path
+                    elif r.is_const and isinstance(r.val, (set, frozenset, tuple, list, dict)) and dbname in r.val:
+                        verdicts.append(need <= set(r.val))
+                    elif r.k in ('set', 'tuple') and any(x.is_const and x.val == dbname for x in r.a[0]):
+                        names = {x.val for x in r.a[0] if x.is_const}
+                        verdicts.append(need <= names)
+                elif v.k == 'mcall' and v.a[0] in ('startswith',) and isinstance(v.a[1], int):
+                    a = tr[v.a[1]].d['args']
+                    if a and a[0].is_const and a[0].val == dbname:
+                        verdicts.append(True)
+    if not verdicts:
+        return [Ob('H6', 'Cache.check/database-files-exempt', True, 'not decided: no recognisable exemption test',
+                   f.loc(), nontrivial=False)]
+    return [Ob('H6', 'Cache.check/database-files-exempt', all(verdicts),
+               'the unknown-file scan exempts only some of %s: with a rollback-journal mode check() reports the '
+               'journal of a healthy cache as an unknown file and check(fix=True) deletes it' % sorted(need), f.loc())]
